@@ -23,6 +23,8 @@ func checkC09(c *Ctx) {
 	r.Rule("C09.L6-add", "Add increments pendingEvents and hands a token to the loop in one write-lock section", 1)
 	r.Rule("C09.L8-timer-rearm", "the window timer is re-armed (Reset) only after Stop, draining its channel when Stop reports it already fired", 1)
 	r.Rule("C09.L9-backoff-bounded", "backoffFactor grows only under currentDur < maxDelay (strict) and currentDur is clamped to maxDelay", 1)
+	r.Rule("C09.L10-reset-idle", "reset() restores the whole idle state: pendingEvents=0, currentDur=initialDelay, backoffFactor=1, hasTimer=false, timer=nil", 1)
+	r.Rule("C09.L11-run-context", "the handlers (and so every signalling goroutine) get the context derived in Run that Close cancels, not the caller's", 2)
 	r.Rule("C09.L7-handlers", "expiry fires before reset; first token fires immediately and opens initialDelay window; cap fires immediately", 3)
 
 	pkg := p.ModPath + "/events/ratelimiting"
@@ -235,6 +237,136 @@ func checkC09(c *Ctx) {
 
 	c09TimerRearm(c, pkg, fns)
 	c09Backoff(c, pkg, fns)
+	c09ResetIdle(c, pkg)
+	c09RunContext(c, pkg)
+}
+
+// c09ResetIdle: every return of reset() has stored the idle values.
+func c09ResetIdle(c *Ctx, pkg string) {
+	r, p := c.R, c.P
+	fn := p.Func("events/ratelimiting", "coalescing.reset")
+	const (
+		fPending = 1 << iota
+		fDur
+		fFactor
+		fHasTimer
+		fTimer
+	)
+	ff := &FlagFlow{Fn: fn, Must: true, Transfer: func(in ssa.Instruction, st uint64) uint64 {
+		switch x := in.(type) {
+		case *ssa.Store:
+			fa, ok := x.Addr.(*ssa.FieldAddr)
+			if !ok || fieldIDOfAddr(fa).Type != pkg+".coalescing" {
+				return st
+			}
+			k, isK := x.Val.(*ssa.Const)
+			switch fieldIDOfAddr(fa).Field {
+			case "pendingEvents":
+				if isK && k.Value != nil && k.Int64() == 0 {
+					return st | fPending
+				}
+				return st &^ fPending
+			case "backoffFactor":
+				if isK && k.Value != nil && k.Int64() == 1 {
+					return st | fFactor
+				}
+				return st &^ fFactor
+			case "currentDur":
+				if id, _, ok := fieldOfValue(x.Val); ok && id.Field == "initialDelay" {
+					return st | fDur
+				}
+				return st &^ fDur
+			case "timer":
+				if isNilConst(x.Val) {
+					return st | fTimer
+				}
+				return st &^ fTimer
+			}
+		case *ssa.Call:
+			if obj := calleeObj(x); obj != nil && obj.Name() == "Store" && len(x.Call.Args) == 2 {
+				if id, _, ok := fieldOfValue(x.Call.Args[0]); ok && id.Field == "hasTimer" {
+					if k, ok := x.Call.Args[1].(*ssa.Const); ok && k.Value != nil && k.Value.String() == "false" {
+						return st | fHasTimer
+					}
+					return st &^ fHasTimer
+				}
+			}
+		}
+		return st
+	}}
+	ff.Run()
+	missing := ""
+	n := 0
+	ff.AtReturns(func(ret *ssa.Return, st uint64) {
+		n++
+		for bit, name := range map[uint64]string{fPending: "pendingEvents=0", fDur: "currentDur=initialDelay", fFactor: "backoffFactor=1", fHasTimer: "hasTimer=false", fTimer: "timer=nil"} {
+			if st&bit == 0 {
+				missing += " " + name
+			}
+		}
+	})
+	r.Check(missing == "" && n > 0, "C09.L10-reset-idle", "events/ratelimiting.coalescing.reset", p.Pos(fn.Pos()), "window state fully restored when the limiter goes idle",
+		"reset() does not restore the whole idle state (missing:"+missing+"): the next burst starts with stale window state (e.g. a stale back-off factor makes the second Add's window several times too long, so its signal arrives after the end of its quiet window)")
+}
+
+// c09RunContext: Run derives a cancellable context and passes THAT to the handlers.
+func c09RunContext(c *Ctx, pkg string) {
+	r, p := c.R, c.P
+	run := p.Func("events/ratelimiting", "coalescing.Run")
+	var derived ssa.Value
+	allInstrs(run, func(in ssa.Instruction) {
+		if call, ok := in.(*ssa.Call); ok && callIs(call, "context", "", "WithCancel") {
+			derived = callResult(call, 0)
+		}
+	})
+	if derived == nil {
+		r.Violation("C09.L11-run-context", "events/ratelimiting.coalescing.Run derived context", p.Pos(run.Pos()), "Run no longer derives a cancellable context: Close cannot release signalling goroutines blocked on a slow consumer")
+		return
+	}
+	// the derived ctx may be stored into the (shadowed) ctx cell; accept loads of a cell whose stores after entry are the derived value
+	isDerived := func(v ssa.Value) bool {
+		if v == derived {
+			return true
+		}
+		if u, ok := v.(*ssa.UnOp); ok && u.Op == token.MUL {
+			if cell, ok := u.X.(*ssa.Alloc); ok {
+				okAll, n := true, 0
+				for _, rr := range refs(cell) {
+					if st, ok := rr.(*ssa.Store); ok && st.Addr == ssa.Value(cell) {
+						n++
+						if st.Val != derived {
+							okAll = false
+						}
+					}
+				}
+				return okAll && n > 0
+			}
+		}
+		return false
+	}
+	n := 0
+	for _, name := range []string{"coalescing.handleInputCh", "coalescing.handleTimerFired"} {
+		h := p.Func("events/ratelimiting", name)
+		allInstrs(run, func(in ssa.Instruction) {
+			call, ok := in.(*ssa.Call)
+			if !ok || staticCallee(call) != h {
+				return
+			}
+			n++
+			okCtx := false
+			for _, a := range call.Call.Args {
+				if types.Identical(a.Type(), derived.Type()) && isDerived(a) {
+					okCtx = true
+				}
+			}
+			r.Check(okCtx, "C09.L11-run-context", "events/ratelimiting.coalescing.Run -> "+name, p.Pos(call.Pos()), "handler gets the context derived in Run (cancelled on Close)",
+				"the handler is given a context other than the one Run derives and cancels when closeCh fires: a signalling goroutine blocked on a slow consumer is never released, so Close (which waits for all helper goroutines) never returns")
+		})
+	}
+	if n == 0 {
+		r.Violation("C09.L11-run-context", "events/ratelimiting.coalescing.Run handlers", p.Pos(run.Pos()), "Run no longer calls the input/timer handlers")
+	}
+	// and closeCh case cancels the derived context (or the deferred cancel runs on return)
 }
 
 // c09TimerRearm: every Reset of coalescing.timer is dominated by a Stop of it
